@@ -10,7 +10,7 @@ from . import engine as E
 
 STUBS = [
     'bytearray -> list-backed SymByteArray in bytecode.packed_bits, bytecode.assembled, line_object, engine',
-    'int -> proxy-aware cast (always yields a proxy; isinstance(x, int) accepts proxies) in expression, utilities, bytecode.parts, model, line_object.data_line',
+    'int -> proxy-aware cast (always yields a proxy; isinstance(x, int) accepts proxies) in expression, utilities, bytecode.parts, model, line_object.data_line, __main__ (the command callback is the entry point of PIPE runs)',
     'Fraction -> exact rational proxy (SymRat) in expression; float (if the code uses it) -> IEEE binary64 proxy (z3 FP theory)',
     'open(..., "w"/"wb") in engine -> in-memory capture (records every open and write)',
     'click.echo / print in engine -> no-op / capture; hex() in engine (error message only) -> constant text',
@@ -54,6 +54,13 @@ def _fake_open(name, mode='r', *a, **k):
 
 
 class _Click:
+    @staticmethod
+    def echo(*a, **k):
+        return None
+
+
+class _ClickCli:
+    """click as seen by __main__ after import: only echo() is used at run time inside the command callbacks"""
     @staticmethod
     def echo(*a, **k):
         return None
@@ -137,6 +144,9 @@ def install():
     rl.version = _VersionStub
     import bespokeasm.assembler.pretty_printer.intelhex as ih
     ih.IntelHex = _IntelHexRecorder
+    import bespokeasm.__main__ as cli
+    cli.int = E.sym_int
+    cli.click = _ClickCli
     import bespokeasm.assembler.preprocessor.condition as cond
     cond.parse_expression = _cond_parse_expression
     _installed = True
@@ -170,6 +180,31 @@ class SymVersion:
 
     def __hash__(self):
         return 3
+
+    # attributes of packaging.version.Version that code may look at
+    @property
+    def release(self):
+        return tuple(self.c[:3])
+
+    @property
+    def major(self):
+        return self.c[0]
+
+    @property
+    def minor(self):
+        return self.c[1]
+
+    @property
+    def micro(self):
+        return self.c[2]
+
+    @property
+    def is_prerelease(self):
+        return E.SymBool(self.c[3].e != E.bvval(0))
+
+    @property
+    def base_version(self):
+        raise E.Inconclusive('base_version text of a symbolic version')
 
 
 class SymVersionToken:
